@@ -269,10 +269,14 @@ def __init__(self, sample_rate=3*u.GHz, fch1=0*u.GHz, ascending=True, num_pols=2
 META = {
     'technique': 'static analysis: symbolic value analysis with the affine-sequence domain (FORMULA/AGREE), trace comparison '
                  'against reference transcriptions (attribute stores, calls, guards), ownership pairing of clock updates',
-    'level': 'Decides from the source that a request evaluates sample k at t_start + k/sample_rate and advances the clock so the '
-             'next request continues exactly one dt later, that every noise/signal source is summed in (with complex promotion), '
-             'the chirp closed form, set/add/reset time semantics, restoration after update_noise, the [x, y] stacking order and '
-             'that every function advancing an antenna\'s streams advances that antenna\'s clock. Sample-for-sample equality under '
-             'chunking (float accumulation of the clock, generator stream continuity) is not decided.',
+    'level': 'Decides from the source that a request evaluates sample k at t_start + k/sample_rate and advances the clock so '
+             'the next request continues exactly one dt later, that every noise/signal source is summed in (with complex '
+             'promotion), the chirp closed form, set/add/reset time semantics, restoration after update_noise, the [x, y] '
+             "stacking order and that every function advancing an antenna's streams advances that antenna's clock. Sample-for-"
+             'sample equality under chunking (float accumulation of the clock, generator stream continuity) is not decided. '
+             'Also decided: update_noise runs its probe request on copies of the generators and puts clock, flag and '
+             'generators back on every exit (GENSTATE), and every noise source after the first draws from a generator of its '
+             'own (SHAREDGEN), both necessary for seeded noise to be independent of chunking and of interleaved update_noise '
+             'calls.',
     'note': 'Real arithmetic; user-supplied source callables are opaque.',
 }
